@@ -627,6 +627,7 @@ def opPyOp (j : Json) : Json :=
     match f, args with
     | "truthy", [a] => .bool (Py.truthy a)
     | "not", [a] => Py.not_ a
+    | "bool", [a] => Py.bool_ a
     | "and", [a, b] => Py.and_ a b
     | "or", [a, b] => Py.or_ a b
     | "eq", [a, b] => Py.eq a b
